@@ -3,7 +3,9 @@ package route
 import (
 	"encoding/json"
 	"errors"
+	"os"
 
+	"github.com/cnotch/ipchub/internal/verifhook"
 	"github.com/cnotch/ipchub/zzverif/symapi"
 )
 
@@ -183,5 +185,65 @@ func VerifRouteJSONLoad() {
 		symapi.Assert(g != nil && g.URL == r.URL, "loaded-route-equals-the-stored-one")
 	}
 	symapi.Assert(len(t.All()) == len(verifFileRoutes), "table-size-equals-the-file")
+	symapi.Reach("end")
+}
+
+var verifCrashPoints = []string{"", "encodejson.opened", "encodejson.written", "encodejson.synced", "encodejson.closed", "encodejson.renamed"}
+
+func verifBytesEq(a, b []byte) bool {
+	if len(a) != len(b) {
+		return false
+	}
+	for i := range a {
+		if a[i] != b[i] {
+			return false
+		}
+	}
+	return true
+}
+
+// VerifRouteCrashRestart (C18): the routes file through the JSON provider's Flush and the
+// restart's LoadAll: the process dies at any point of the flush, the file system falls back
+// to its durable image (a leftover temporary file may be empty or a prefix), the server
+// starts and loads: the routes file is the complete old or the complete new table before
+// AND after the load, and the load succeeds.
+func VerifRouteCrashRestart() {
+	full := []*Route{{Pattern: "/live/cam", URL: "rtsp://h/cam"}, {Pattern: "/live/", URL: "rtsp://h/dir"}}
+	verifFileRoutes = full
+	ref := &jsonProvider{filePath: symapi.TempPath("ref-routes.json")}
+	symapi.Assert(ref.Flush(full, nil, nil) == nil, "reference-flush-ok")
+	newc, ok := symapi.DurableFile(ref.filePath)
+	symapi.Assert(ok && len(newc) > 0, "complete-flush-is-durable")
+
+	p := &jsonProvider{filePath: symapi.TempPath("routes.json")}
+	old := []byte("[{\"pattern\":\"/previous\",\"url\":\"rtsp://h/p\"}]")
+	symapi.SetFile(p.filePath, old)
+	verifhook.CrashAt = verifCrashPoints[symapi.Choose("crashAt", len(verifCrashPoints))]
+	func() {
+		defer func() {
+			if r := recover(); r != nil {
+				if _, isCrash := r.(verifhook.CrashSignal); isCrash {
+					return
+				}
+				panic(r)
+			}
+		}()
+		p.Flush(full, nil, nil)
+	}()
+	verifhook.CrashAt = ""
+	// restart: only the durable image survives
+	for _, f := range []string{p.filePath, p.filePath + ".tmp"} {
+		if img, exists := symapi.DurableFile(f); exists {
+			symapi.SetFile(f, img)
+		} else {
+			os.Remove(f)
+		}
+	}
+	img, exists := symapi.DurableFile(p.filePath)
+	symapi.Assert(exists && (verifBytesEq(img, old) || verifBytesEq(img, newc)), "routes-file-complete-old-or-new-after-the-crash")
+	_, err := p.LoadAll()
+	symapi.Assert(err == nil, "restart-loads-the-routes-file")
+	img2, exists2 := symapi.DurableFile(p.filePath)
+	symapi.Assert(exists2 && verifBytesEq(img2, img), "loading-does-not-change-the-routes-file")
 	symapi.Reach("end")
 }
